@@ -77,9 +77,9 @@ def run_cgls(c, rec):
     x0c = x0.copy()
     sol, k = must(lambda: cuqi.solver.CGLS(op_forms(Am, c["form"]), b, x0, maxit, 1e-12, s).solve(), "CGLS.solve")
     require(maxdiff(x0, x0c) == 0, "CGLS altered the start vector")
-    if k >= maxit:
-        rec.inconc("cgls_iteration_cap")
-        return
+    # A has singular values in [1, 10]: conjugate gradients on the (shifted) normal equations reach 1e-12 in well under
+    # 50 n + 200 iterations; a run that uses the whole budget returns a point that is not the solution
+    require(k < maxit, "CGLS did not converge within 50 n + 200 iterations on a system with condition number <= 100", k=k, maxit=maxit, shift=s)
     H = Am.T @ Am + s * np.eye(n)
     g = Am.T @ b
     res = np.linalg.norm(H @ sol - g)
@@ -127,9 +127,7 @@ def run_pcgls(c, rec):
         return
     maxit = 50 * n + 200
     sol, k = must(lambda: cuqi.solver._solver.PCGLS(op_forms(Am, c["form"]), b, x0, sp.csc_matrix(P), maxit, 1e-12).solve(), "PCGLS.solve")
-    if k >= maxit:
-        rec.inconc("pcgls_iteration_cap")
-        return
+    require(k < maxit, "PCGLS did not converge within 50 n + 200 iterations on a well-conditioned system", k=k, maxit=maxit)
     g = Am.T @ (b - Am @ sol)
     scale = 1 + np.linalg.norm(Am.T @ b) + np.linalg.norm(Am) ** 2 * np.linalg.norm(sol)
     require(np.linalg.norm(g) <= 1e-7 * scale, "PCGLS result does not solve the normal equations A^T A x = A^T b",
@@ -185,8 +183,10 @@ def run_fista(c, rec):
     prox, reg, feas = make_prox(c)
     t = c["frac"] / np.linalg.norm(Am, 2) ** 2
     maxit = 40000
-    sol, k = must(lambda: cuqi.solver.FISTA(op_forms(Am, c["form"]), b, x0, proximal=prox, maxit=maxit, stepsize=t,
-                                            abstol=1e-13, adaptive=c["adaptive"]).solve(), "FISTA.solve")
+    out = must(lambda: cuqi.solver.FISTA(op_forms(Am, c["form"]), b, x0, proximal=prox, maxit=maxit, stepsize=t,
+                                         abstol=1e-13, adaptive=c["adaptive"]).solve(), "FISTA.solve")
+    require(isinstance(out, tuple) and len(out) == 2, "FISTA.solve did not return (solution, iterations)", got=repr(out)[:80])
+    sol, k = out
     Tx = prox(sol - t * (Am.T @ (Am @ sol - b)), t)
     active = bool(np.any(np.abs(Tx - (sol - t * (Am.T @ (Am @ sol - b)))) > 1e-12))
     tags = {"solver": "FISTA" if c["adaptive"] else "ISTA", "prox": c["prox"], "form": c["form"]}
